@@ -34,7 +34,7 @@ ASSUMPTIONS = [
 PROBES = ["rules_total", "cat_accessible", "cat_tuned", "cat_failed", "all_three_in_one_run", "tuned_via_variable", "tuned_literal",
           "nested_depth_3", "nested_rule_tuned", "premium_runs", "default_bg_runs", "shared_var_sheet", "root_direct_color",
           "fallback_used", "important_present", "prop_case_present", "alpha_text_tuned", "api_calls", "dir_invocation",
-          "mode0", "mode1", "mode2", "report_present", "subprocess_crosscheck", "multi_file_runs", "inplace_model_evaluated", "inplace_model_matched", "real_interpreter_runs", "non_utf8_locale_runs"]
+          "mode0", "mode1", "mode2", "report_present", "subprocess_crosscheck", "multi_file_runs", "inplace_model_evaluated", "inplace_model_matched", "real_interpreter_runs", "non_utf8_locale_runs", "second_invocation_in_process_runs"]
 
 C08_FEATURES = tuple(f for f in gen.ALL_FEATURES if f not in gen.C09_ONLY)
 
@@ -59,6 +59,11 @@ def generate(rseed, tier, idx):
     env = {"cwd": e.choice(("cwd", "cwd", "tree")), "tty": e.random() < 0.3, "argform": e.choice(("abs", "abs", "rel")),
            "inv": e.choice(("file", "file", "dir")), "name": e.choice(("a.css", "style.css", "my style.css", "thème.css"))}
     tr = {"prop": ID, "ast": ast, "feats": feats, "settings": settings, "env": env, "subproc": idx % 16 == 3}
+    if g.random() < 0.2:
+        # the judged invocation is the SECOND one in its process (a wrapper script, a test harness, a watch loop):
+        # an earlier invocation over another stylesheet, with its own fixes and failures, ran just before it
+        wf = gen.draw_features(g, C08_FEATURES, 0.3)
+        tr["warmup"] = {"ast": gen.gen_sheet(g, wf, settings, max_rules=4, tag="W"), "settings": _settings(g)}
     if idx % 12 == 7:
         # executed by a real interpreter under a non-UTF-8 locale (or, as a control, a UTF-8 one)
         env["real"] = e.choice(("C", "C", "utf8"))
@@ -227,7 +232,8 @@ def inplace_model(sheets, settings, cache):
                 cache[key] = base.in_fork(_classify, text_str, bg_str, settings.get("mode"), bool(settings.get("premium")), timeout=120)
             cls = cache[key]
             k = (bname, ri.selector)
-            pred["rule_values"][k] = raw_text
+            fk = (fname, ri.selector)
+            pred["rule_values"][fk] = raw_text
             if cls[0] == "failed":
                 pred["failed"].add(k)
             elif cls[0] == "tuned":
@@ -237,9 +243,9 @@ def inplace_model(sheets, settings, cache):
                 if m and m.group(1) in table:
                     table[m.group(1)]["value"] = tuned
                 else:
-                    pred["rule_values"][k] = tuned
+                    pred["rule_values"][fk] = tuned
         for n, v in table.items():
-            pred["var_values"][(bname, n)] = v["value"]
+            pred["var_values"][(fname, n)] = v["value"]
     return pred
 
 
@@ -258,11 +264,11 @@ def inplace_model_matches(sheets, settings, cards, fail_keys, out_texts, cache):
         oinfos, oprops = refs.analyse(out_texts[fname], dbg)
         for ri in oinfos:
             if ri.color_decls:
-                want = pred["rule_values"].get((bname, ri.selector))
+                want = pred["rule_values"].get((fname, ri.selector))
                 if want is None or refs._ser(tinycss2.parse_component_value_list(want)) != ri.color_value:
                     return False
         for (b, n), v in pred["var_values"].items():
-            if b == bname and oprops.get(n) != refs._ser(tinycss2.parse_component_value_list(v)):
+            if b == fname and oprops.get(n) != refs._ser(tinycss2.parse_component_value_list(v)):
                 return False
     return True
 
@@ -275,6 +281,17 @@ def _best_ratio(text, bg, alpha_text):
         for d in (-2, 2):
             r = max(r, refs.contrast(tuple(max(0, min(255, c + d)) for c in text), bg))
     return r
+
+
+def _two_invocations(root, warmup, target, settings, env, order_key):
+    """Same process: first an invocation over another stylesheet in another directory (discarded), then the judged one."""
+    wdir = os.path.join(root, "warm")
+    os.makedirs(os.path.join(wdir, "t"), exist_ok=True)
+    with open(os.path.join(wdir, "t", "w.css"), "wb") as fh:
+        fh.write(gen.render(warmup["ast"]).encode("utf-8"))
+    cli_run.cli_exec(wdir, "t/w.css", warmup["settings"], cwd_rel="c")
+    base.rm_tree(wdir)
+    return cli_run.cli_exec(root, target, settings, cwd_rel=env["cwd"], order_key=order_key, tty=env["tty"], argform=env["argform"])
 
 
 def _sheets(trace):
@@ -314,6 +331,9 @@ def execute(trace):
             bump("real_interpreter_runs")
             if env["real"] == "C":
                 bump("non_utf8_locale_runs")
+        elif trace.get("warmup"):
+            res = base.in_fork(_two_invocations, root, trace["warmup"], target, settings, env, trace.get("order_key"), timeout=300)
+            bump("second_invocation_in_process_runs")
         else:
             res = base.in_fork(cli_run.cli_exec, root, target, settings, cwd_rel=env["cwd"], order_key=trace.get("order_key"),
                                tty=env["tty"], argform=env["argform"], timeout=200)
@@ -586,6 +606,14 @@ def _defs_nf(defs):
 
 
 def shrink(trace):
+    if trace.get("warmup"):
+        t = copy.deepcopy(trace)
+        del t["warmup"]
+        yield t
+        for t2 in shrink_sheet(trace["warmup"]["ast"]):
+            t = copy.deepcopy(trace)
+            t["warmup"]["ast"] = t2
+            yield t
     if trace.get("sheets"):
         for i in range(len(trace["sheets"])):
             t = copy.deepcopy(trace)
